@@ -2,7 +2,7 @@ import GT.Base.JsonQ
 import GT.Base.QSqrt
 import GT.Model.Circle
 import GT.Driver.C13
-open Lean GT.J GT
+open Lean GT.J GT GT.Circle
 namespace GT.Driver.C14
 open GT.Driver.C13 (needSq V S S_toFn withVec)
 
